@@ -328,10 +328,40 @@ def check_reuse(acc, node, envs, origin):
             break
 
 
+# hand-written programs for the reuse phase: macro ranges, operands and receivers that are COMPUTED from the bindings (concatenation,
+# indexing, field selection, conditionals, nested macros whose inner range depends on the outer variable)
+REUSE_TEXTS = [
+    "(l + [0]).map(x, x * 2)", "(l + l).filter(x, x > n)", "l[0] + size(l.filter(x, x > n))", "[[1], [2], [3]].map(x, [x[0] + n].map(y, y * 2))", "(n > 1 ? l : [n]).exists_one(x, x == n)",
+    "m.k.all(x, x in l)", "(s + 'x').size() + l.map(x, x + n)[0]", "[l[0], n].exists(x, x > 1)", "l.map(x, l.filter(y, y >= x).size())", "[n, n + 1].map(x, x * n)", "(l + [n]).exists_one(x, x == n)",
+    "n in (l + [7])", "(s + s).contains(s) && (s + 'b').startsWith(s)", "{'a': n, 'b': l}.b.map(x, x + n)", "m.k.map(x, x + n).filter(y, y in l)", "[s, s + 'a'].filter(x, x.endsWith('a'))",
+    "l.exists_one(x, x == n) == (size(l.filter(x, x == n)) == 1)", "(l + [n])[size(l)] == n", "[m.k, l].map(x, size(x))", "size(l) > 0 ? l[size(l) - 1] : n",
+]
+REUSE_ENVS = [
+    {"l": ("list", (("int", 1), ("int", 2))), "n": ("int", 1), "m": ("map", ((("string", "k"), ("list", (("int", 1),))),)), "s": ("string", "ab")},
+    {"l": ("list", (("int", 5), ("int", 0), ("int", 5))), "n": ("int", 5), "m": ("map", ((("string", "k"), ("list", (("int", 5), ("int", 7)))),)), "s": ("string", "a")},
+    {"l": ("list", ()), "n": ("int", 0), "m": ("map", ((("string", "k"), ("list", ())),)), "s": ("string", "")},
+    {"l": ("list", (("int", -1),)), "n": ("int", 2), "m": ("map", ((("string", "k"), ("list", (("int", 2), ("int", -1)))),)), "s": ("string", "ba")},
+]
+
+
+def fixed_reuse(acc, ctx):
+    c = core.celpy()
+    parser = c.CELParser(tree_class=c.TranspilerTree)
+    from .. import larkconv
+
+    for i, src in enumerate(REUSE_TEXTS):
+        if not ctx.mine(i):
+            continue
+        node = larkconv.with_simple_literals(larkconv.conv(parser.parse(src)))
+        for order in ([0, 1, 2, 3, 0], [3, 2, 1, 0, 3], [1, 0, 1, 3, 2]):
+            check_reuse(acc, node, [REUSE_ENVS[k] for k in order], "fixed")
+
+
 def run(ctx):
     acc = ctx.acc
     rnd = ctx.rnd
     core.celpy()
+    fixed_reuse(acc, ctx)
     index_sweep(acc, ctx)
     key_sweep(acc, ctx)
     regex_checks(acc, ctx, ctx.scale(2400, 80000))
